@@ -474,11 +474,25 @@ func c12Run(r *Run) {
 			}
 			return false
 		}
+		fromOwnTable := map[types.Object]bool{}
+		ast.Inspect(fd.Body, func(n ast.Node) bool {
+			if rs, ok := n.(*ast.RangeStmt); ok && rooted(rs.X) && rs.Value != nil {
+				if id, ok := rs.Value.(*ast.Ident); ok && isDefinition(info.TypeOf(id)) {
+					fromOwnTable[info.Defs[id]] = true
+				}
+			}
+			return true
+		})
 		ast.Inspect(fd.Body, func(n ast.Node) bool {
 			switch x := n.(type) {
 			case *ast.AssignStmt:
 				for i, l := range x.Lhs {
 					if ix, ok := ast.Unparen(l).(*ast.IndexExpr); ok && rooted(ix.X) && i < len(x.Rhs) && carriesDefinition(x.Rhs[i]) {
+						// an index over definitions the VM already holds (for k, v := range vm.classMap { vm.byFold[fold(k)] = v })
+						// adds no definition: the stored value is the range value of one of the receiver's own tables
+						if fromOwnTable[objOf12(info, x.Rhs[i])] {
+							continue
+						}
 						storesDefinition[fd.Name.Name] = true
 					}
 				}
@@ -1154,4 +1168,12 @@ func c12StoresParam(info *types.Info, fd *ast.FuncDecl) bool {
 		return !found
 	})
 	return found
+}
+
+
+func objOf12(info *types.Info, e ast.Expr) types.Object {
+	if id, ok := ast.Unparen(e).(*ast.Ident); ok {
+		return info.Uses[id]
+	}
+	return nil
 }
